@@ -5,3 +5,5 @@ go 1.21
 replace github.com/TarsCloud/TarsGo => /repo
 
 require github.com/TarsCloud/TarsGo v0.0.0-00010101000000-000000000000
+
+require go.uber.org/automaxprocs v1.5.2 // indirect
